@@ -55,7 +55,7 @@ def build(tier):
     quick = tier == "quick"
     qs = []
     # --- (1a) one symbolic operation on fresh segmentations (offset cache primed by a symbolic read)
-    segs1 = [[2, 1], [1, 0, 2]] if quick else [[4], [2, 2], [0, 3], [2, 1], [1, 0, 2], [1, 1, 1]]
+    segs1 = [[2, 1], [0, 2], [1, 0, 2]] if quick else [[4], [2, 2], [0, 3], [0, 2], [2, 1], [1, 0, 2], [1, 1, 1], [0, 0, 2]]
     for sg in segs1:
         total = sum(sg)
         for pre in ((3,) if quick else (0, 3)):
